@@ -56,6 +56,10 @@ def wfExpr : Expr → Bool
   | .topkSlice isTop hasLabels k => rawE (topkText isTop hasLabels k)
   | .arrayJoinFrom src arr => wfExpr src && wfExpr arr
   | .fixedLit units scale => rawE (b (fixedText units scale))
+  | .jsonMap ps => ps.all (fun p => p.2.all (fun a => match a with | .key _ => true | .idx i => rawE (intText i)))
+  | .regexMap _ _ id => rawC (regexMid id) && rawC (regexPost id)
+  | .mapDrop m _ => wfExpr m
+  | .labelsFp => true
 def wfSels : List Sel → Bool
   | [] => true
   | s :: ss => wfSel s && wfSels ss
